@@ -10,9 +10,13 @@ for d in seeded/*/; do
   git -C /repo worktree add -q --detach $wt HEAD || exit 2
   if ! git -C $wt apply $PWD/$d/patch.diff 2>/dev/null; then echo "$id: patch no longer applies"; echo "patch no longer applies to HEAD" > $d/detected.txt; git -C /repo worktree remove --force $wt; continue; fi
   out=$(VERIF_REPO=$wt ./check $prop quick 2>&1); rc=$?
+  hits=0; [ $rc -eq 1 ] && hits=1
+  for extra in ${SWEEP_EXTRA_SEEDS:-}; do
+    VERIF_SEED=$extra VERIF_NO_REPLAY_VERIFY=1 VERIF_REPO=$wt ./check $prop quick >/dev/null 2>&1; [ $? -eq 1 ] && hits=$((hits+1))
+  done
   git -C /repo worktree remove --force $wt
   sigs=$(echo "$out" | grep "signature:" | sed 's/.*signature: //' | sort -u | tr '\n' ' ')
-  echo "$id: check=$prop exit=$rc sigs=$sigs"
+  echo "$id: check=$prop exit=$rc hits=$hits sigs=$sigs"
   { echo "check: ./check $prop quick (VERIF_SEED=${VERIF_SEED:-1})"; echo "exit: $rc"; echo "signatures: $sigs"; echo "$out" | grep -E "^C[0-9]+ quick"; } > $d/detected.txt
   python3 - "$d" "$prop" "$rc" "$sigs" <<'PY'
 import json,sys
